@@ -202,7 +202,7 @@ pub fn run(thorough: bool) -> Report {
         };
         let mk = || mk_sess();
         let (stats, viol) = bfs(&mk, &[root.clone()], &alpha, depth, &check, Some(&probe), 20_000_000);
-        if stats.events_enabled.len() < alpha.len() {
+        if viol.is_empty() && stats.events_enabled.len() < alpha.len() {
             machinery("vacuous: not every history event was enabled");
         }
         total_states += stats.states;
